@@ -230,6 +230,10 @@ class VM:
         self.exception_handlers: List[Tuple[int, int, int]] = []
         # call_stack depth at entry of every native-driven callback in progress
         self._callback_bases: List[int] = []
+        # Number of native-to-script re-entries in progress (callbacks, accessors,
+        # conversions, nested eval). Each one recurses in the host, so the count
+        # is bounded; interpreters serving one evaluation share the counter.
+        self.native_depth: List[int] = [0]
 
     def run(
         self, compiled: CompiledFunction, start_time: Optional[float] = None
@@ -2520,6 +2524,7 @@ class VM:
             stack_len = len(self.stack)
             call_stack_len = len(self.call_stack)
 
+            self.enter_native()
             self._callback_bases.append(call_stack_len)
             try:
                 # Invoke the function
@@ -2593,6 +2598,7 @@ class VM:
                 raise
             finally:
                 self._callback_bases.pop()
+                self.native_depth[0] -= 1
 
             # Get result from stack
             if len(self.stack) > stack_len:
@@ -2603,6 +2609,18 @@ class VM:
             return result if result is not None else UNDEFINED
         else:
             raise JSTypeError(f"{callback} is not a function")
+
+    # Script code re-entered from native code recurses in the host (about six
+    # Python frames per level); stop well before the host stack does.
+    MAX_NATIVE_DEPTH = 80
+
+    def enter_native(self, weight: int = 1) -> None:
+        """Account one more native-to-script re-entry, or refuse it."""
+        if self.native_depth[0] + weight > self.MAX_NATIVE_DEPTH:
+            if self.memory_limit:
+                raise MemoryLimitError("Memory limit exceeded")
+            raise JSRangeError("Maximum call stack size exceeded")
+        self.native_depth[0] += weight
 
     def _invoke_js_function(
         self,
